@@ -249,6 +249,31 @@ Definition manager_wake (e : exec) : exec :=
   | _ => e
   end.
 
+(* What the code hands to wait() is the sentinel list built when the manager ENTERED
+   wait_result_broken_or_wakeup; [watch] is that list.  [manager_wake] above is the case watch = procs e,
+   i.e. no process was added to _processes since the manager went to sleep.  A submit that has to respawn
+   workers (they exited on idle time-out) wakes the manager up BEFORE it spawns them, so the manager can be
+   back in wait() with a list that lacks the new workers: finding F28 (C10_stale_watch_refuted). *)
+Definition manager_wake_watch (watch : list nat) (e : exec) : exec :=
+  match mgr e with
+  | AtWait =>
+    match resq e with
+    | m :: rest =>
+      match m with
+      | MPartial => set_mgr e Stuck
+      | MRemoteTb => terminate_broken BrokenProcessPool (set_wakeup (set_resq e rest) false)
+      | MGarbage => terminate_broken BrokenProcessPool (set_wakeup (set_resq e rest) false)
+      | _ => after_wait (Some m) (set_wakeup (set_resq e rest) false)
+      end
+    | [] =>
+      if wakeup e then after_wait None (set_wakeup e false)
+      else if existsb (fun p => match wk e p with WDead => true | _ => false end) watch
+           then terminate_broken TerminatedWorkerError e
+           else e
+    end
+  | _ => e
+  end.
+
 Definition manager_feed (e : exec) : exec :=
   match mgr e with
   | AtFeed => let e1 := add_call_item_to_queue e in if is_crashed e1 then e1 else set_mgr e1 AtWait
